@@ -223,7 +223,12 @@ fn exec_search(query: Vec<String>, config: &mut Config, default_config: &Config,
             let use_colors = !no_color && is_terminal;
 
             let mut searcher = Searcher::new(&query, config, default_config, use_colors);
-            searcher.list_search_results().unwrap();
+            if let Err(err) = searcher.list_search_results() {
+                if err.kind() != std::io::ErrorKind::BrokenPipe {
+                    error_message("search", &err.to_string());
+                    return 1;
+                }
+            }
 
             let error_count = searcher.error_count;
             match error_count {
